@@ -766,6 +766,24 @@ def r6(F, R):
     R.floor(9)
 
 
+def r7(F, R):
+    """"The run always terminates ... the event stream ends": a panic of user code must not unwind through the scheduler (it would end
+    the stream without run-Finished and drop every other scenario) — every call of a step fn / hook / World::new lies inside the
+    future guarded by catch_unwind (C10.R1's wrap rule)."""
+    from . import c10
+    c10.r1(F, R)
+
+
+def r8(F, R):
+    """With the tracing integration the attempt waits for its spans to close: the collector must mark a closed span also when a waiter
+    subscribed first (C20.R6), else the wait never resolves and the run never ends."""
+    if not any((b.impl or {}).get("self_adt") == "tracing::Collector" for b in F.crate_bodies()):
+        R.ok("close-marks-entry", None, "no tracing collector in this configuration")
+        return
+    from . import c20
+    c20.span_close_bookkeeping(F, R)
+
+
 RULES = [
     ("R1", r1, None),
     ("R2", r2, None),
@@ -773,4 +791,6 @@ RULES = [
     ("R4", r4, None),
     ("R5", r5, None),
     ("R6", r6, None),
+    ("R7", r7, None),
+    ("R8", r8, None),
 ]
